@@ -44,7 +44,8 @@ def astExpect : String :=
   traceU <ev> <ev> ...       the same for a Session whose statement cache cannot purge for capacity (MaxPreparedStmts 0
                              or at least the number of distinct keys): every R must be justified (`Obs.justified`)
   events (no blanks inside):
-    S:<c>:<q|b>:<key>/<nvals>,...        call c starts (query / batch), entries
+    S:<c>:<q|b>:<key>/<nvals>,...        call c starts (query / batch), entries (nvals = 1000 + n: n bound values one of
+                                         which cannot be marshalled into any column type - matches no bind metadata)
     P:<f>:<key>:ok/<idhex>/<ncols>/<sighex>
                                          the server received PREPARE number f of <key> and answers PREPARED with that
                                          id, that many bind columns and bind column types whose value widths are <sig>
